@@ -28,8 +28,28 @@ func rulesC19(c *Ctx) {
 		n++
 		le := NewLockEngine(c.P)
 		// ---- R1 ----
-		k := guardedAccessRule(c, le, "R1", fns, T, "layouts", "layoutMutex", nil)
-		k += guardedAccessRule(c, le, "R1", fns, T, "views", "viewMutex", nil)
+		// every map-typed field of the provider is a cache (found by type, not by name)
+		k := 0
+		var cacheMaps []string
+		if pst, ok := T.Underlying().(*types.Struct); ok {
+			for i := 0; i < pst.NumFields(); i++ {
+				if mt, isMap := pst.Field(i).Type().Underlying().(*types.Map); isMap {
+					if !strings.HasSuffix(mt.Elem().String(), "template.Template") {
+						continue // e.g. template.FuncMap: read-only configuration, not a cache
+					}
+					cacheMaps = append(cacheMaps, pst.Field(i).Name())
+					k += guardedAccessRule(c, le, "R1", fns, T, pst.Field(i).Name(), "", nil)
+				}
+			}
+		}
+		isCacheMap := func(n string) bool {
+			for _, m := range cacheMaps {
+				if m == n {
+					return true
+				}
+			}
+			return false
+		}
 		if k < 4 {
 			c.Bad("R1", short+" cache accesses", 0, fmt.Sprintf("only %d accesses to the cache maps found (>= 4 expected); cannot certify", k))
 		}
@@ -41,26 +61,31 @@ func rulesC19(c *Ctx) {
 					continue
 				}
 				loaderCalls++
-				os := Origins(ci.Arg(0), FlowOpts{})
+				os := Origins(ci.Arg(0), FlowOpts{LiftParams: 1})
 				priv := allOrigins(os, func(o Origin) bool {
 					return o.Kind == "call" && (strings.HasSuffix(o.Name, "/template.(Template).Clone#0") || strings.HasSuffix(o.Name, "/template.New#0"))
 				})
 				con := fmt.Sprintf("parse target in %s", fname(f))
 				c.Check(priv, "R2", con, ci.Pos(), "a fresh Clone()/New() of this build step", "the loader parses into "+originsString(os)+" — definitions of this layer leak into a shared/cached template (other views, the layout)")
 				// R3 layering
-				layer := ""
-				switch {
-				case strings.HasSuffix(f.Name(), "view"):
-					layer = "Layout"
-				case strings.HasSuffix(f.Name(), "layout"):
-					layer = "Base"
-				}
-				if layer == "" {
-					continue
-				}
-				okL := false
 				for _, o := range os {
-					if call, ok := o.Val.(*ssa.Call); ok && strings.HasSuffix(o.Name, ".(Template).Clone#0") {
+					call, ok := o.Val.(*ssa.Call)
+					if !ok || !strings.HasSuffix(o.Name, ".(Template).Clone#0") {
+						continue
+					}
+					owner := call.Parent()
+					layer := ""
+					switch {
+					case strings.HasSuffix(owner.Name(), "view"):
+						layer = "Layout"
+					case strings.HasSuffix(owner.Name(), "layout"):
+						layer = "Base"
+					}
+					if layer == "" {
+						continue
+					}
+					okL := false
+					{
 						ro := Origins(call.Call.Args[0], FlowOpts{})
 						if hasOrigin(ro, func(x Origin) bool {
 							return x.Kind == "call" && strings.Contains(x.Name, "(Provider)."+layer+"#0")
@@ -68,12 +93,12 @@ func rulesC19(c *Ctx) {
 							okL = true
 						}
 					}
+					c.Check(okL, "R3", fmt.Sprintf("%s builds on %s()", fname(owner), layer), call.Pos(), "cloned from the previous layer", "the layer is not cloned from "+layer+"()'s result — helper/layout definitions are missing or the wrong layer is extended")
 				}
-				c.Check(okL, "R3", fmt.Sprintf("%s builds on %s()", fname(f), layer), ci.Pos(), "cloned from the previous layer", "the layer is not cloned from "+layer+"()'s result — helper/layout definitions are missing or the wrong layer is extended")
 			}
 		}
-		if loaderCalls < 3 {
-			c.Bad("R2", short+" loader calls", 0, fmt.Sprintf("only %d NewTemplateLoader calls found (3 expected)", loaderCalls))
+		if loaderCalls < 1 {
+			c.Bad("R2", short+" loader calls", 0, "no NewTemplateLoader call found; cannot certify")
 		}
 		// ---- R4 cache transparency ----
 		stI, ci := fieldIndex(T, "isCached")
@@ -86,7 +111,7 @@ func rulesC19(c *Ctx) {
 				what := ""
 				switch x := in.(type) {
 				case *ssa.MapUpdate:
-					if nm, base := fieldLoadName(x.Map); (nm == "layouts" || nm == "views") && base != nil && !freshBase(base) {
+					if nm, base := fieldLoadName(x.Map); isCacheMap(nm) && base != nil && !freshBase(base) {
 						val, what = x.Value, nm
 					}
 				case *ssa.Store:
@@ -129,35 +154,54 @@ func rulesC19(c *Ctx) {
 		if ci < 0 || stores < 3 {
 			c.Bad("R4", short+" cache stores", 0, fmt.Sprintf("found %d cache stores (>= 3 expected)", stores))
 		}
-		// view cache key
-		if vf := c.P.Func(pk, "Provider", "View"); vf != nil {
-			found := false
-			for _, cinfo := range Calls(vf) {
-				if cinfo.Static == nil || cinfo.Static.Name() != "view" {
-					continue
+		// cache keys: a key built from several names separates them by a constant
+		keysSeen := 0
+		for _, f := range fns {
+			eachInstr(f, func(_ *ssa.BasicBlock, _ int, in ssa.Instruction) {
+				mu, ok := in.(*ssa.MapUpdate)
+				if !ok {
+					return
 				}
-				key := cinfo.Arg(2)
-				if key == nil {
-					continue
+				if nm, base := fieldLoadName(mu.Map); !isCacheMap(nm) || base == nil || freshBase(base) {
+					return
 				}
-				found = true
-				parts := flattenTemplate(resolveTop(key))
-				var seq []string
-				for _, p := range parts {
-					if p.hole == "" {
-						if p.konst != "" {
-							seq = append(seq, "C")
+				// the key as its builder wrote it (a parameter is followed to the call sites)
+				var keyVals []ssa.Value
+				if p, isP := resolve(mu.Key).(*ssa.Parameter); isP {
+					keyVals = liftSites(p)
+				}
+				if len(keyVals) == 0 {
+					keyVals = []ssa.Value{mu.Key}
+				}
+				for _, kv := range keyVals {
+					parts := flattenTemplate(resolveTop(kv))
+					holes := 0
+					okK := true
+					prevHole := false
+					for _, p := range parts {
+						if p.hole == "" {
+							if p.konst != "" {
+								prevHole = false
+							}
+							continue
 						}
-					} else {
-						seq = append(seq, "H")
+						holes++
+						if prevHole {
+							okK = false
+						}
+						prevHole = true
 					}
+					if holes < 2 {
+						continue // a single name: nothing to separate
+					}
+					keysSeen++
+					c.Check(okK, "R4", short+" composite cache key", mu.Pos(), "the names in the key are separated by a constant: "+renderTemplate(parts),
+						"a cache key joins two names without a separator ("+renderTemplate(parts)+") — two (layout, view) pairs share one cache slot")
 				}
-				okK := strings.Join(seq, "") == "HCH"
-				c.Check(okK, "R4", short+" view cache key", cinfo.Pos(), "layout + constant separator + view", "the view cache key does not separate the layout name from the view name by a constant ("+renderTemplate(parts)+") — two (layout, view) pairs share one cache slot")
-			}
-			if !found {
-				c.Bad("R4", short+" view cache key", vf.Pos(), "cannot find the key passed to view(); cannot certify")
-			}
+			})
+		}
+		if keysSeen == 0 {
+			c.Bad("R4", short+" composite cache key", 0, "no cache key built from layout and view name found; cannot certify")
 		}
 		// ---- R5 lock order ----
 		edges := le.OrderEdges(fns)
